@@ -546,6 +546,11 @@ func Re(errBuf *strings.Builder, validName, objName, fieldName string, tv reflec
 		}
 	}
 
+	if i >= l { // "'" 后面没有内容, 如: re='
+		errBuf.WriteString(GetJoinFieldErr(objName, fieldName, reErr))
+		return
+	}
+
 	pattern := string(b)
 	newValidName := validName[:splitIndex] + validName[i+1:] // 重新解析下自定义消息, 这里已经排除正则部分, 处理结果为: re='|xxxx
 	// fmt.Printf("pattern: %s, newValidName: %s\n", pattern, newValidName)
